@@ -381,3 +381,35 @@ def assumptions(pid):
 def trusted_base(pid, res):
     tb = ['%s: %s' % (a, ASSUMPTIONS[a]) for a in PROP_ASSUMES.get(pid, ['tools'])]
     return tb
+
+# ---- collector functions in place (twins of the V rows; source of concrete counterexamples)
+_S = ['C01', 'C20']
+_k('K.step.trace', 'k_step_trace', ['C01', 'C02', 'C06', 'C07', 'C10', 'C20'], 'real Context::trace / trace_weak against trace_rel / trace_weak_rel, all colours x flags x phases x counters')
+_k('K.step.make_gray_again', 'k_step_make_gray_again', ['C01', 'C06', 'C10', 'C11'], 'real make_gray_again: Black -> Gray, queued once, trace credit taken back')
+_k('K.step.resurrect', 'k_step_resurrect', ['C07', 'C10'], 'real resurrect: dead object -> Gray and queued whatever its type; arena reports Marking')
+_k('K.step.upgrade', 'k_step_upgrade', ['C05', 'C03', 'C19'], 'real upgrade against upgrade_rel; changes nothing, destructs nothing')
+_k('K.step.backward_barrier', 'k_step_backward_barrier', ['C01', 'C05', 'C06', 'C10', 'C03', 'C20'], 'real backward_barrier (child Some/None) and backward_barrier_weak: adoption post-state, rel, frame, no underflow; second arena untouched')
+_k('K.step.forward_barrier', 'k_step_forward_barrier', ['C01', 'C05', 'C06', 'C10', 'C03', 'C20', 'C02'], 'real forward_barrier / forward_barrier_weak (parent Some/None): adoption post-state, acts only while marking, frame; second arena untouched')
+_k('K.step.root_barrier', 'k_step_root_barrier', ['C06', 'C08'], 'real root_barrier / gray_remaining')
+_k('K.step.link', 'k_step_link', ['C01', 'C03', 'C05', 'C10', 'C18', 'C20'], 'real allocation + link in every phase, incl. every cursor position of a running sweep: new head, in front of the cursor, counts one Gc, no collection work')
+_k('K.step.sweep_one', 'k_step_sweep_one', ['C01', 'C02', 'C04', 'C05', 'C10', 'C20', 'C11'], 'real sweep_one on 3 real objects: relinking, destructor runs (drop counter) exactly for live unmarked / weakly marked values, shell kept, counters; Kani checks dealloc validity')
+_k('K.step.sweep_one_end', 'k_step_sweep_one_end', ['C04', 'C08'], 'real sweep_one with an exhausted cursor: Break, nothing changes')
+_k('K.step.mark_one', 'k_step_mark_one', ['C01', 'C02', 'C06', 'C10', 'C15'], 'real mark_one through the real vtable and the derive-generated trace of a node with a strong and a weak pointer')
+_k('K.step.mark_one_root', 'k_step_mark_one_root', ['C01', 'C07', 'C08', 'C15'], 'real mark_one: root traced last and unflagged; Break changes nothing')
+_k('K.drop.context', 'k_drop_context_any_phase', ['C04', 'C10', 'C11', 'C20'], 'real Drop for Context in any phase incl. mid-sweep: live values destructed once, shells not again, count 0, other arena untouched', complete='bounded: 3 objects on the list')
+# ---- sanctioned store paths (C06) through the real public API
+_P = ['C01', 'C06', 'C13', 'C20']
+_k('K.path.gc_write', 'k_path_gc_write_field_unlock_set', ['C01', 'C06', 'C20'], 'Gc::write + field!/unlock! + Cell::set establishes can_adopt for every phase x colours; frame; second arena untouched')
+_k('K.path.gc_unlock', 'k_path_gc_unlock', ['C01', 'C06'], 'Gc::unlock')
+_k('K.path.lock_set', 'k_path_lock_set', ['C01', 'C06'], 'Gc<Lock<T>>::set')
+_k('K.path.reflock_borrow_mut', 'k_path_reflock_borrow_mut', ['C01', 'C06'], 'Gc<RefLock<T>>::borrow_mut')
+_k('K.path.reflock_try_borrow_mut', 'k_path_reflock_try_borrow_mut', ['C01', 'C06'], 'Gc<RefLock<T>>::try_borrow_mut')
+_k('K.path.oncelock_set', 'k_path_oncelock_set', ['C01', 'C06'], 'Gc<OnceLock<T>>::set')
+_k('K.path.oncelock_get_or_init', 'k_path_oncelock_get_or_init', ['C01', 'C06'], 'Gc<OnceLock<T>>::get_or_init')
+_k('K.path.non_tracing_parent', 'k_path_barrier_on_non_tracing_parent', ['C06', 'C10'], 'write barrier on a marked object whose type needs no tracing: no panic, no underflow, no counter moves (F1)')
+_k('K.path.root_mutation', 'k_path_root_mutation', ['C01', 'C06', 'C08'], 'Arena::mutate_root / map_root / try_map_root flag the root for re-tracing while marking')
+_k('K.path.mutation_barriers', 'k_path_mutation_barriers', ['C06', 'C10'], 'the four public Mutation barriers with each optional argument Some/None (typed wrappers)')
+_k('K.path.mutation_barriers_arena', 'k_path_mutation_backward_barriers', ['C06', 'C20'], 'the same through a real Arena with a second arena present', tier='thorough')
+# ---- Arena API (C08)
+_k('K.api.collection_methods', 'k_api_collection_methods', ['C08', 'C07', 'C09'], 'each Arena collection method passes the documented (RunUntil, Stop) and maps the phase test to Some/None; collection_phase mapping (driver stubbed by a recorder)')
+_k('K.api.start_sweeping', 'k_api_start_sweeping', ['C08'], 'MarkedArena::start_sweeping = (Stop, AtSweep), ends Sweeping')
